@@ -4,7 +4,7 @@ cd "$(dirname "$0")"
 ./setup.sh >/dev/null || exit 2
 OUT=${1:-thorough_results.txt}
 : > $OUT
-for id in ${PROPS:-C20 C19 C18 C17 C16 C15 C14 C13 C11 C07 C09 C08 C06 C10 C05 C02 C03 C01 C04}; do
+for id in ${PROPS:-C20 C19 C18 C17 C16 C15 C14 C13 C12 C11 C07 C09 C08 C06 C10 C05 C02 C03 C01 C04}; do
   s=$(date +%s)
   ./check $id --tier thorough > thorough_$id.log 2>&1
   rc=$?
